@@ -40,7 +40,7 @@ func effectOf(name string, fobj *types.Func) (string, bool) {
 	if e, ok := extraEffects[name]; ok {
 		return e, true
 	}
-	if fobj != nil && fobj.Pkg() != nil && pureAccessorPkgs[fobj.Pkg().Path()] {
+	if fobj != nil && fobj.Pkg() != nil && (pureAccessorPkgs[fobj.Pkg().Path()] || pureStdPkgs[fobj.Pkg().Path()]) {
 		return "pure", true
 	}
 	return "", false
@@ -120,6 +120,44 @@ func moduleExternalCalls(ld *Loaded) (calls []extCall, goSelect []string, mapRan
 	return
 }
 
+// moduleCallers: static call graph of the module, callee name -> set of caller names (a closure counts as its
+// enclosing function, on both sides)
+func moduleCallers(ld *Loaded) map[string]map[string]bool {
+	outer := func(f *ssa.Function) *ssa.Function {
+		for f.Parent() != nil {
+			f = f.Parent()
+		}
+		return f
+	}
+	res := map[string]map[string]bool{}
+	for _, f := range ld.funcs {
+		if !ld.isModuleFn(f) {
+			continue
+		}
+		for _, b := range f.Blocks {
+			for _, in := range b.Instrs {
+				ci, ok := in.(ssa.CallInstruction)
+				if !ok {
+					continue
+				}
+				cal := ci.Common().StaticCallee()
+				if cal == nil || !ld.isModuleFn(cal) {
+					continue
+				}
+				from, to := fnName(outer(f)), fnName(outer(cal))
+				if from == to {
+					continue
+				}
+				if res[to] == nil {
+					res[to] = map[string]bool{}
+				}
+				res[to][from] = true
+			}
+		}
+	}
+	return res
+}
+
 func tplOb(name string, ok bool, detail string) *ObResult {
 	return &ObResult{Name: name, Backend: "template-ast", OK: ok, Status: okStr(ok), N: 1, Detail: detail}
 }
@@ -162,9 +200,38 @@ func moduleObligations(ld *Loaded, specs *SpecDB, prop, repo string) []*ObResult
 		add("C14", scanOb("module/map-ranges-accounted", strings.Join(mapRanges, ",") == strings.Join(wantRanges, ","),
 			fmt.Sprintf("range-over-map sites %v; order-independence is proved for %v only", mapRanges, wantRanges)))
 		sort.Strings(writers)
-		okW := len(writers) == 1 && writers[0] == "main.run"
+		// helpers of run: functions of package main without a contract that are called from nowhere but run (or
+		// another such helper). run's verification executes their bodies in place, so its effect-trace
+		// postconditions (what is written, when, under which flags) cover the calls they make.
+		callers := moduleCallers(ld)
+		var isRunHelper func(name string, depth int) bool
+		isRunHelper = func(name string, depth int) bool {
+			if name == "main.run" {
+				return true
+			}
+			if depth > 4 || !strings.HasPrefix(name, "main.") || specs.Lookup(name) != nil || len(callers[name]) == 0 {
+				return false
+			}
+			for c := range callers[name] {
+				if !isRunHelper(c, depth+1) {
+					return false
+				}
+			}
+			return true
+		}
+		okW := len(writers) >= 1
+		var got []string
+		for _, w := range writers {
+			wo := w
+			if i := strings.Index(wo, "$"); i >= 0 {
+				wo = wo[:i]
+			}
+			if !isRunHelper(wo, 0) {
+				okW = false
+			}
+			got = append(got, fsWriteIn[w]...)
+		}
 		if okW {
-			got := append([]string{}, fsWriteIn["main.run"]...)
 			sort.Strings(got)
 			okW = strings.Join(got, ",") == "os.MkdirAll,os.Remove,os.WriteFile"
 		}
@@ -187,6 +254,47 @@ func moduleObligations(ld *Loaded, specs *SpecDB, prop, repo string) []*ObResult
 		tree := trees["moq"]
 		var ranges, ifs, actions []string
 		walkTemplate(tree.Root, &ranges, &ifs, &actions)
+		// sub-templates ({{define}}): their ranges and conditions count like those of the main template, with
+		// the dot replaced by the argument they are invoked with
+		var subNames []string
+		for name := range trees {
+			if name != "moq" {
+				subNames = append(subNames, name)
+			}
+		}
+		sort.Strings(subNames)
+		for _, name := range subNames {
+			argRe := regexp.MustCompile(`\{\{-? *template "` + regexp.QuoteMeta(name) + `" ([^}]*?) *-?\}\}`)
+			args := map[string]bool{}
+			for _, m := range argRe.FindAllStringSubmatch(text, -1) {
+				args[strings.TrimSpace(m[1])] = true
+			}
+			var r2, i2, a2 []string
+			if trees[name] != nil && trees[name].Root != nil {
+				walkTemplate(trees[name].Root, &r2, &i2, &a2)
+			}
+			subst := func(xs []string, out *[]string) {
+				for _, x := range xs {
+					if len(args) == 0 {
+						*out = append(*out, name+":"+x)
+					}
+					for a := range args {
+						y := x
+						if y == "." {
+							y = a
+						} else if strings.HasSuffix(y, ":= .") {
+							y = strings.TrimSuffix(y, ".") + a
+						} else if strings.HasPrefix(y, ".") {
+							y = a + y
+						}
+						*out = append(*out, y)
+					}
+				}
+			}
+			subst(r2, &ranges)
+			subst(i2, &ifs)
+			actions = append(actions, a2...)
+		}
 		allowedRange := map[string]bool{".Imports": true, ".Mocks": true, ".Methods": true, ".Params": true, ".Returns": true, ".TypeParams": true, "$mock.TypeParams": true}
 		allowedIf := map[string]bool{"not $.SkipEnsure": true, "not $.StubImpl": true, "$.StubImpl": true, "$.WithResets": true, ".TypeParams": true, "$mock.TypeParams": true,
 			".Returns": true, "$index": true, "$param.Constraint": true}
@@ -227,7 +335,7 @@ func moduleObligations(ld *Loaded, specs *SpecDB, prop, repo string) []*ObResult
 			"<M>Calls":      regexp.MustCompile(`[^t]\{\{([^}]*)\}\}Calls\b`),
 			"lock<M>":       regexp.MustCompile(`lock\{\{([^}]*)\}\}`),
 			"calls.<M>":     regexp.MustCompile(`calls\.\{\{([^}]*)\}\}`),
-			"method header": regexp.MustCompile(`\n\) \{\{([^}]*)\}\}\(\{\{\.ArgList\}\}\)`),
+			"method header": regexp.MustCompile(`\) \{\{([^}]*)\}\}\(\{\{\.ArgList\}\}\)`),
 		}
 		var badIdent []string
 		for what, re := range idents {
